@@ -107,9 +107,22 @@ def parents(els):
 
 
 # ------------------------------------------------------------------ real objects
-def two_values():
-    yield (0, {"rt": 0})
-    yield (0, {"rt": 1})
+DEFAULT_VIN = ({"rt": 0}, {"rt": 1})
+
+
+def values_of(vin=None):
+    """The callable that generates the incoming values: data 0 with a fresh copy of each of the
+    run-time contexts *vin* (by default {"rt": 0}, {"rt": 1})."""
+    import copy
+    ctxs = DEFAULT_VIN if vin is None else tuple(vin)
+
+    def values():
+        for c in ctxs:
+            yield (0, copy.deepcopy(c))
+    return values
+
+
+two_values = values_of()
 
 
 def ident(val):
@@ -137,8 +150,9 @@ def _lena(fn, *args, **kwargs):
         raise ConstructFailed(exc)
 
 
-def build(els, tuples=False, peek=0):
+def build(els, tuples=False, peek=0, vin=None):
     """Construct the real objects; objs[i-1] is the object of id i.
+    vin = run-time contexts of the values a Source generates (see values_of).
 
     tuples=True selects the alternative spellings of the same tree: a Sequence branch of a Split is
     given as a tuple (Split makes the Sequence), a one-element branch as the bare element (Split
@@ -153,6 +167,7 @@ def build(els, tuples=False, peek=0):
     from lena.meta.elements import SetContext, StoreContext, UpdateContextFromStatic
     par = parents(els)
     objs = []
+    two_values = values_of(vin)
     for n, e in enumerate(els, 1):
         k = e["k"]
         if k == "set":
@@ -276,28 +291,28 @@ def observe_element(kind, o):
     return {"name": c.get("output", {}).get(MF_FIELD[kind]) if isinstance(c, dict) else None}
 
 
-def run_root(els, objs):
+def run_root(els, objs, vin=None):
     """Contexts of the values that leave the pipeline for the incoming values
-    (0, {"rt": 0}), (0, {"rt": 1})."""
+    (0, c) for c in vin (by default (0, {"rt": 0}), (0, {"rt": 1}))."""
     import lena.flow
     root = objs[-1]
     if els[-1]["k"] in ("src", "srcf"):
         out = list(root())
     else:
-        out = list(root.run(two_values()))
+        out = list(root.run(values_of(vin)()))
     return [prune(lena.flow.get_context(v)) for v in out]
 
 
-def observe(els, objs, run=True):
-    """Observations of every object, then (optionally) one value is run through the root and
+def observe(els, objs, run=True, vin=None):
+    """Observations of every object, then (optionally) the values are run through the root and
     everything is observed again: running the pipeline must not change what the elements hold
-    (changed = [(id, before, after)])."""
+    (changed = [(id, before, after)]) - whatever run-time contexts the values carry."""
     obs = [observe_element(e["k"], o) for e, o in zip(els, objs)]
     rt = None
     changed = []
     if run and exact_runtime(els):
         try:
-            rt = run_root(els, objs)
+            rt = run_root(els, objs, vin)
         except Exception as exc:     # noqa
             rt = "raised " + exc_name(exc) + ": " + str(exc)[:200]
         again = [observe_element(e["k"], o) for e, o in zip(els, objs)]
@@ -422,18 +437,31 @@ def compare(els, exp, obs, rt):
         if isinstance(rt, str):
             bad.append(("runtime", "raised", els[-1]["k"], len(els), None, rt))
         else:
+            vin = vin_of(exp)
             if not has_ucfs:
-                leaked = [c for c in rt if set(c) - {"output", "rt"}]
+                # a value leaves with the context it came with (MakeFilename adds to "output" only)
+                came = set(_canon(_noout(c)) for c in vin) | set([_canon({})])
+                leaked = [c for c in rt if _canon(_noout(c)) not in came]
                 if leaked:
                     bad.append(("runtime", "static-key-leaked", els[-1]["k"], len(els), "no static key", leaked))
             if exp["noerr"] and exact_runtime(els):
-                want = [prune(dec(c)) for c in exp["rt"]]
+                # one list per reading of "the run-time context has higher precedence" (nested
+                # dictionaries replaced or merged); where they agree there is one
+                wants = [[prune(dec(c)) for c in alt] for alt in [exp["rt"]] + ([exp["rtm"]] if exp.get("rtm") else [])]
                 # order and multiplicity of the values belong to C01/C03: compare as sets
                 a = sorted(set(_canon(c) for c in rt))
-                b = sorted(set(_canon(c) for c in want))
-                if a != b:
-                    bad.append(("runtime", "contexts", els[-1]["k"], len(els), want, rt))
+                if not any(a == sorted(set(_canon(c) for c in want)) for want in wants):
+                    bad.append(("runtime", "contexts", els[-1]["k"], len(els), wants[0], rt))
     return bad, used_other_key
+
+
+def vin_of(exp):
+    """Run-time contexts of the incoming values of an expectation record (Python dictionaries)."""
+    return [dec(c) for c in exp["vin"]] if exp.get("vin") else [dict(c) for c in DEFAULT_VIN]
+
+
+def _noout(c):
+    return prune(dict((key, v) for key, v in c.items() if key != "output")) if isinstance(c, dict) else c
 
 
 def exact_runtime(els):
@@ -461,7 +489,7 @@ def subtree(els, n):
 
 
 # ------------------------------------------------------------------ recording for the trace spec
-def record(els, obs, rt, stable=True):
+def record(els, obs, rt, stable=True, vin=None, gen=1):
     """Observations in the vocabulary of Trace_StaticContext.tla (homogeneous records)."""
     rows = []
     for e, o in zip(els, obs):
@@ -490,6 +518,8 @@ def record(els, obs, rt, stable=True):
             "rtx": isinstance(rt, list),
             "stable": bool(stable),
             "rt": [enc(c) for c in rt] if isinstance(rt, list) else [],
+            "vin": [enc(c) for c in (DEFAULT_VIN if vin is None else vin)],
+            "gen": gen,
             "only": 0}
 
 
